@@ -37,8 +37,15 @@ struct Traits
 // LimP derives WasFull from the memory-pool index; with skipOddMemPools the pool of maxCount items is reached one item early
 template<class Bk, class = void> struct WfOdd { static const int v = 0; };
 template<class Bk> struct WfOdd<Bk, std::void_t<decltype(Bk::skipOddMemPools)>> { static const int v = Bk::skipOddMemPools ? 1 : 0; };
+// does the bucket keep hash bits (useHashCodePartGetter)?  -1 = the bucket class has no such switch
+template<class Bk, class = void> struct HasPart { static const int v = -1; };
+template<class Bk> struct HasPart<Bk, std::void_t<decltype(Bk::useHashCodePartGetter)>> { static const int v = Bk::useHashCodePartGetter ? 1 : 0; };
 struct SetSett : HashSetSettings { static const CheckMode checkMode = CheckMode::exception; };
 struct MapSett : HashMapSettings { static const CheckMode checkMode = CheckMode::exception; };
+// iterator versions off + stateless memory manager: momo keeps traits and manager INSIDE the container (inline SetCrew)
+struct SetSettNV : HashSetSettings { static const CheckMode checkMode = CheckMode::exception; static const bool checkVersion = false; };
+template<typename M> struct MkMM { static M make() { return M(1); } };
+template<> struct MkMM<kit::MM0> { static kit::MM0 make() { return kit::MM0(); } };
 
 static const ull P = 2147483629ull;
 static inline void dg(ull& acc, ull x) { acc = (acc * 1000003ull + (x % P) + 7) % P; }
@@ -47,9 +54,10 @@ template<typename Key> struct MkKey { static Key make(int64_t k) { return Key(k)
 template<> struct MkKey<uint64_t> { static uint64_t make(int64_t k) { return uint64_t(k); } };
 
 // adapters: the same driver for HashSet and HashMap
-template<typename Key, typename Tr> struct SetAd
+template<typename Key, typename Tr, typename MMt = kit::MM, typename St = SetSett> struct SetAd
 {
-	typedef HashSet<Key, Tr, kit::MM, HashSetItemTraits<Key, kit::MM>, SetSett> Cont;
+	typedef MMt MemMgr;
+	typedef HashSet<Key, Tr, MMt, HashSetItemTraits<Key, MMt>, St> Cont;
 	typedef Cont HS;
 	static HS& hs(Cont& c) { return c; }
 	static bool insert(Cont& c, int64_t k) { return c.Insert(MkKey<Key>::make(k)).inserted; }
@@ -77,6 +85,7 @@ template<typename Key, typename Tr> struct SetAd
 };
 template<typename Key, typename Tr> struct MapAd
 {
+	typedef kit::MM MemMgr;
 	typedef HashMap<Key, int64_t, Tr, kit::MM, HashMapKeyValueTraits<Key, int64_t, kit::MM>, MapSett> Cont;
 	typedef typename Cont::HashSet HS;
 	static HS& hs(Cont& c) { return c.mHashSet; }
@@ -103,7 +112,7 @@ template<typename Key, typename Tr> struct MapAd
 	}
 };
 
-struct Obs { ull ngens, shape, headItems; void* head; std::string text; std::set<const void*> addrs; };
+struct Obs { ull ngens, shape, headItems, headLog = 0; void* head; std::string text; std::set<const void*> addrs; };
 
 template<typename Ad> static Obs observe(typename Ad::Cont& c, bool verbose)
 {
@@ -130,7 +139,7 @@ template<typename Ad> static Obs observe(typename Ad::Cont& c, bool verbose)
 			}
 			if (verbose) o.text += std::string(b.WasFull() ? "]" : ")");
 		}
-		if (o.ngens == 0) o.headItems = n;
+		if (o.ngens == 0) { o.headItems = n; o.headLog = bk->GetLogCount(); }
 		++o.ngens;
 	}
 	return o;
@@ -141,10 +150,10 @@ template<typename Ad, typename Tr> static void run_case(int dist, size_t logStar
 	typedef typename Ad::Cont Cont; typedef typename Ad::HS HS;
 	bool verbose = getenv("C11_VERBOSE") != nullptr;
 	W() = kit::World();
-	std::string outp; std::vector<std::string> oracle;
-	ull g2 = 0, g3 = 0, fb = 0, fullc = 0, refused = 0, migfail = 0, maxg = 0, afails = 0, chk = 0;
+	std::string outp; std::vector<std::string> oracle; std::map<std::string, int> rescount;
+	ull g2 = 0, g3 = 0, fb = 0, fullc = 0, refused = 0, migfail = 0, maxg = 0, afails = 0, chk = 0, grows = 0, growsx = 0, maxlog = 0, brim = 0, bandsame = 0, bandcross = 0;
 	{
-		Cont c{Tr(dist, logStart), kit::MM(1)};
+		Cont c{Tr(dist, logStart), MkMM<typename Ad::MemMgr>::make()};
 		HS& hs = Ad::hs(c);
 		std::set<int64_t> twin; std::vector<int64_t> known; std::set<int64_t> knownSet;
 		std::unique_ptr<typename Ad::Ext> ext; int64_t heldKey = -1;
@@ -193,6 +202,8 @@ template<typename Ad, typename Tr> static void run_case(int dist, size_t logStar
 				W().disarm();
 				Obs after = observe<Ad>(c, false);
 				int h = 0, af = 0, r = 0; long m = -1;
+				if (after.head != before.head && after.head != nullptr) { ++grows; if (before.head != nullptr) { ++growsx;
+					if ((before.headLog + 6) / 8 == (after.headLog + 6) / 8) ++bandsame; else ++bandcross; } }   // 8-doubling bands of the stored hash bits
 				bool refusedNow = firedA && armA == 0 && grow;
 				if (res == "E") h = 1;
 				else if (res == "B") { if (refusedNow || kind == 'v') r = 1; else af = 1; }
@@ -260,7 +271,7 @@ template<typename Ad, typename Tr> static void run_case(int dist, size_t logStar
 			else if (kind == 'm') { Cont tmp(std::move(c)); c = std::move(tmp); res = "M"; }       // move out and back (BucketParams travel along)
 			else if (kind == 'y')
 			{	// the whole content is moved away and destroyed; c continues as a brand-new bucket-less container
-				{ Cont other(std::move(c)); Cont fresh{Tr(dist, logStart), kit::MM(1)}; c = std::move(fresh); }
+				{ Cont other(std::move(c)); Cont fresh{Tr(dist, logStart), MkMM<typename Ad::MemMgr>::make()}; c = std::move(fresh); }
 				twin.clear(); res = "Y";
 			}
 			else if (kind == 'r')
@@ -287,11 +298,14 @@ template<typename Ad, typename Tr> static void run_case(int dist, size_t logStar
 			else if (kind == 't') res = "T";
 			else if (kind == 'c') res = "C";
 			else res = "?";
+			++rescount[(res.size() > 1 && (res[0] == 'P')) ? std::string("P") : res];
 			// ---- observations after EVERY op ----
 			Obs o = observe<Ad>(c, verbose);
 			if (o.ngens >= 2) ++g2;
 			if (o.ngens >= 3) ++g3;
 			if (o.ngens > maxg) maxg = o.ngens;
+			if (hs.mBuckets != nullptr) { if (hs.mBuckets->GetLogCount() > maxlog) maxlog = hs.mBuckets->GetLogCount();
+				if (o.ngens == 1 && hs.GetCount() + 1 == hs.mBuckets->GetCount() * HS::Bucket::maxCount) ++brim; }
 			ull fd = 0;
 			for (int64_t k : known)
 			{
@@ -327,7 +341,11 @@ template<typename Ad, typename Tr> static void run_case(int dist, size_t logStar
 			std::vector<int64_t> tr; bool badv = false; Obs fin = observe<Ad>(c, false); Ad::traverse(c, tr, badv, fin.addrs); std::sort(tr.begin(), tr.end());
 			if (badv || tr.size() != twin.size() || !std::equal(tr.begin(), tr.end(), twin.begin())) oracle.push_back("contents differ from twin after completing the migration");
 			outp += " # g2=" + std::to_string(g2) + " g3=" + std::to_string(g3) + " maxg=" + std::to_string(maxg) + " fb=" + std::to_string(fb) + " refused=" + std::to_string(refused)
-				+ " full=" + std::to_string(fullc) + " migfail=" + std::to_string(migfail) + " afail=" + std::to_string(afails) + " extra=" + std::to_string(extra) + " single=" + std::to_string(single) + " chk=" + std::to_string(chk);
+				+ " full=" + std::to_string(fullc) + " migfail=" + std::to_string(migfail) + " afail=" + std::to_string(afails) + " extra=" + std::to_string(extra) + " single=" + std::to_string(single) + " chk=" + std::to_string(chk)
+				+ " grows=" + std::to_string(grows) + " growsx=" + std::to_string(growsx) + " maxlog=" + std::to_string(maxlog) + " brim1=" + std::to_string(brim) + " bandsame=" + std::to_string(bandsame) + " bandcross=" + std::to_string(bandcross)
+				+ " part=" + std::to_string(HasPart<typename HS::Bucket>::v) + " itemsize=" + std::to_string(sizeof(typename HS::Item))
+				+ " res=" + [&rescount] { std::string x; for (auto& kv : rescount) x += (x.empty() ? "" : ",") + kv.first + ":" + std::to_string(kv.second); return x.empty() ? std::string("-") : x; }()
+				+ " inlinecrew=" + (std::is_same<typename HS::Crew, internal::SetCrew<Tr, typename Ad::MemMgr, false, false>>::value ? "1" : "0");
 		}
 	}
 	if (sched)
@@ -338,15 +356,40 @@ template<typename Ad, typename Tr> static void run_case(int dist, size_t logStar
 	puts(outp.c_str()); fflush(stdout);
 }
 
-template<typename HB> static bool run_kind(const std::string& keycat, const std::string& sm, int dist, size_t ls, const std::vector<std::string>& ops, bool sched)
+// ExpF / ExpS = Bucket::maxCount expected for fast-hash resp. stored-bits configurations: proves that the INTENDED bucket class
+// is instantiated (HashBucketOpen8 yields BucketOpen8 (7 slots) only without the hash-code-part getter, else BucketOpen2N2<3>)
+template<typename HB, size_t ExpF, size_t ExpS, bool WithMaps = false> static bool run_kind(const std::string& keycat, const std::string& sm, int dist, size_t ls, const std::vector<std::string>& ops, bool sched)
 {
+	{
+		typedef typename SetAd<uint64_t, Traits<HB, true>>::HS HF; typedef typename SetAd<kit::ElemNtm, Traits<HB, false>>::HS HSl;
+		typedef typename SetAd<kit::ElemNtm, Traits<HB, false, false>>::HS HT;
+		static_assert(HF::Bucket::maxCount == ExpF && HT::Bucket::maxCount == ExpF && HSl::Bucket::maxCount == ExpS, "unexpected bucket class");
+		static_assert(HasPart<typename HF::Bucket>::v != 1 && HasPart<typename HT::Bucket>::v != 1, "fast / T configurations must not keep hash bits");
+		static_assert(HasPart<typename HSl::Bucket>::v != 0, "S configurations must keep hash bits where the bucket can");
+		static_assert(HF::areItemsNothrowRelocatable == HF::Bucket::isNothrowAddableIfNothrowCreatable, "fast keys: nothrow relocation iff the bucket adds without allocating");
+		static_assert(!HSl::areItemsNothrowRelocatable && !HT::areItemsNothrowRelocatable, "slow-hash keys are never nothrow-relocatable");
+		static_assert(std::is_nothrow_move_constructible<kit::ElemNtm>::value && !std::is_trivially_copyable<kit::ElemNtm>::value, "ElemNtm category");
+		static_assert(!std::is_same<typename HF::Crew, internal::SetCrew<Traits<HB, true>, kit::MM, false, false>>::value, "kit::MM has state: crew behind a pointer");
+	}
 	if (keycat == "F" && sm == "S") { typedef Traits<HB, true> Tr; run_case<SetAd<uint64_t, Tr>, Tr>(dist, ls, ops, sched); return true; }
 	if (keycat == "S" && sm == "S") { typedef Traits<HB, false> Tr; run_case<SetAd<kit::ElemNtm, Tr>, Tr>(dist, ls, ops, sched); return true; }
 	if (keycat == "T" && sm == "S") { typedef Traits<HB, false, false> Tr; run_case<SetAd<kit::ElemNtm, Tr>, Tr>(dist, ls, ops, sched); return true; }
-#ifdef C11_MAPS
-	if (keycat == "F" && sm == "M") { typedef Traits<HB, true> Tr; run_case<MapAd<uint64_t, Tr>, Tr>(dist, ls, ops, sched); return true; }
-	if (keycat == "S" && sm == "M") { typedef Traits<HB, false> Tr; run_case<MapAd<kit::ElemNtm, Tr>, Tr>(dist, ls, ops, sched); return true; }
-#endif
+	if constexpr (WithMaps)
+	{	// HashMap is instantiated for one kind per translation unit (compile time)
+		if (keycat == "F" && sm == "M") { typedef Traits<HB, true> Tr; run_case<MapAd<uint64_t, Tr>, Tr>(dist, ls, ops, sched); return true; }
+		if (keycat == "S" && sm == "M") { typedef Traits<HB, false> Tr; run_case<MapAd<kit::ElemNtm, Tr>, Tr>(dist, ls, ops, sched); return true; }
+	}
+	return false;
+}
+// inline crew: stateless manager kit::MM0 + checkVersion = false (sets only)
+template<typename HB> static bool run_kind_inline(const std::string& keycat, int dist, size_t ls, const std::vector<std::string>& ops, bool sched)
+{
+	if (keycat == "F") { typedef Traits<HB, true> Tr; typedef SetAd<uint64_t, Tr, kit::MM0, SetSettNV> Ad;
+		static_assert(std::is_same<typename Ad::HS::Crew, internal::SetCrew<Tr, kit::MM0, false, false>>::value, "inline crew expected");
+		run_case<Ad, Tr>(dist, ls, ops, sched); return true; }
+	if (keycat == "S" || keycat == "T") { typedef Traits<HB, false> Tr; typedef SetAd<kit::ElemNtm, Tr, kit::MM0, SetSettNV> Ad;
+		static_assert(std::is_same<typename Ad::HS::Crew, internal::SetCrew<Tr, kit::MM0, false, false>>::value, "inline crew expected");
+		run_case<Ad, Tr>(dist, ls, ops, sched); return true; }
 	return false;
 }
 
@@ -363,22 +406,25 @@ int main(int argc, char** argv)
 		bool ok = false;
 		typedef MemPoolParams<1, 0> MP1;     // every bucket array of LimP4 is its own memory-manager allocation
 #if C11_TU == 0
-		if (kind == "L1") ok = run_kind<HashBucketLimP4<1, MP1>>(keycat, sm, dist, ls, ops, sched);
-		else if (kind == "L2") ok = run_kind<HashBucketLimP4<2, MP1>>(keycat, sm, dist, ls, ops, sched);
-		else if (kind == "L3") ok = run_kind<HashBucketLimP4<3, MP1>>(keycat, sm, dist, ls, ops, sched);
-		else if (kind == "L4") ok = run_kind<HashBucketLimP4<4, MP1>>(keycat, sm, dist, ls, ops, sched);
-		else if (kind == "L4d") ok = run_kind<HashBucketLimP4<>>(keycat, sm, dist, ls, ops, sched);
+		if (kind == "L1") ok = run_kind<HashBucketLimP4<1, MP1>, 1, 1, true>(keycat, sm, dist, ls, ops, sched);
+		else if (kind == "L2") ok = run_kind<HashBucketLimP4<2, MP1>, 2, 2>(keycat, sm, dist, ls, ops, sched);
+		else if (kind == "L3") ok = run_kind<HashBucketLimP4<3, MP1>, 3, 3>(keycat, sm, dist, ls, ops, sched);
+		else if (kind == "L4") ok = run_kind<HashBucketLimP4<4, MP1>, 4, 4, true>(keycat, sm, dist, ls, ops, sched);
+		else if (kind == "L4d") ok = run_kind<HashBucketLimP4<>, 4, 4>(keycat, sm, dist, ls, ops, sched);
 #elif C11_TU == 1
-		if (kind == "O1") ok = run_kind<HashBucketOpen2N2<1>>(keycat, sm, dist, ls, ops, sched);
-		else if (kind == "O2") ok = run_kind<HashBucketOpen2N2<2>>(keycat, sm, dist, ls, ops, sched);
-		else if (kind == "O3") ok = run_kind<HashBucketOpen2N2<3>>(keycat, sm, dist, ls, ops, sched);
-		else if (kind == "O8") ok = run_kind<HashBucketOpen8>(keycat, sm, dist, ls, ops, sched);
+		if (kind == "O1") ok = run_kind<HashBucketOpen2N2<1>, 1, 1>(keycat, sm, dist, ls, ops, sched);
+		else if (kind == "O2") ok = run_kind<HashBucketOpen2N2<2>, 2, 2>(keycat, sm, dist, ls, ops, sched);
+		else if (kind == "O3") ok = run_kind<HashBucketOpen2N2<3>, 3, 3, true>(keycat, sm, dist, ls, ops, sched);
+		else if (kind == "O8") ok = run_kind<HashBucketOpen8, 7, 3>(keycat, sm, dist, ls, ops, sched);
 #elif C11_TU == 3
-		if (kind == "P2") ok = run_kind<HashBucketLimP<2, MP1>>(keycat, sm, dist, ls, ops, sched);
-		else if (kind == "P3") ok = run_kind<HashBucketLimP<3, MP1>>(keycat, sm, dist, ls, ops, sched);
-		else if (kind == "P8") ok = run_kind<HashBucketLimP<8, MP1>>(keycat, sm, dist, ls, ops, sched);
+		if (kind == "P2") ok = run_kind<HashBucketLimP<2, MP1>, 2, 2>(keycat, sm, dist, ls, ops, sched);
+		else if (kind == "P3") ok = run_kind<HashBucketLimP<3, MP1>, 3, 3, true>(keycat, sm, dist, ls, ops, sched);
+		else if (kind == "P8") ok = run_kind<HashBucketLimP<8, MP1>, 8, 8>(keycat, sm, dist, ls, ops, sched);
 #else
-		if (kind == "N1") ok = run_kind<HashBucketOne<>>(keycat, sm, dist, ls, ops, sched);
+		if (kind == "N1") ok = run_kind<HashBucketOne<>, 1, 1, true>(keycat, sm, dist, ls, ops, sched);
+		else if (kind == "L4i") ok = run_kind_inline<HashBucketLimP4<4, MP1>>(keycat, dist, ls, ops, sched);
+		else if (kind == "O3i") ok = run_kind_inline<HashBucketOpen2N2<3>>(keycat, dist, ls, ops, sched);
+		else if (kind == "O8i") ok = run_kind_inline<HashBucketOpen8>(keycat, dist, ls, ops, sched);
 #endif
 		if (!ok) puts("?");
 	}
